@@ -250,6 +250,57 @@ theorem keyPath_confined (root id : Bytes) (hv : validId id = true) :
   rw [rstep_normal _ _ a1 a2 a3, rstep_normal _ _ b1 b2 b3, rstep_normal _ _ c1 c2 c3]
   simp
 
+/-- the name of the directory below the builder directory that holds the unpacked toolchains: `"toolchains"` -/
+def tcDirName : Bytes := [116, 111, 111, 108, 99, 104, 97, 105, 110, 115]
+
+/-- `OverlayBuilder::prepare_overlay_dirs` after fix aa1c43e: `<builder>/toolchains/<id>` is created only after the toolchain cache
+    has returned the archive of `id` — which it does only for ids `valid_archive_id` accepts (`TcCache::get`) -/
+def overlayDir (builder id : Bytes) (inCache : Bool) : Option Bytes :=
+  if validId id && inCache then some (builder ++ [slash] ++ tcDirName ++ [slash] ++ id) else none
+
+/-- … before the fix the directory was created first, from whatever identifier the client sent (`Path::join` twice) -/
+def overlayDirBefore (builder id : Bytes) : Bytes := pjoin (pjoin builder tcDirName) id
+
+/-- C19 `overlay_dir_confined`: whatever identifier a client supplies, a directory the overlay builder creates for it is exactly
+    `<builder>/toolchains/<id>` — two names below the builder directory -/
+theorem overlayDir_confined (builder id : Bytes) (c : Bool) (p : Bytes) (h : overlayDir builder id c = some p) :
+    resolve p = resolve builder ++ [tcDirName, id] := by
+  unfold overlayDir at h
+  split at h
+  · rename_i hv
+    simp only [Bool.and_eq_true] at hv
+    have hvalid := hv.1
+    cases h
+    unfold validId at hvalid
+    simp only [Bool.and_eq_true, decide_eq_true_eq] at hvalid
+    obtain ⟨hlen, hall⟩ := hvalid
+    have hhex : ∀ b ∈ id, isHexByte b = true := List.all_eq_true.mp hall
+    have hns : ∀ b ∈ id, b ≠ slash := fun b hb => (hex_ne b (hhex b hb)).1
+    have t3 : id ≠ [] := by intro e; rw [e] at hlen; simp at hlen
+    have c2 : id ≠ [dot] := by
+      intro e; have := (hex_ne dot (hhex dot (by rw [e]; simp))).2; exact this rfl
+    have c3 : id ≠ [dot, dot] := by
+      intro e; have := (hex_ne dot (hhex dot (by rw [e]; simp))).2; exact this rfl
+    have hT : ∀ b ∈ tcDirName, b ≠ slash := by decide
+    rw [resolve_eq, resolve_eq]
+    have e : builder ++ [slash] ++ tcDirName ++ [slash] ++ id = builder ++ slash :: (tcDirName ++ slash :: id) := by simp
+    rw [e, splitSlash_append, splitSlash_append, splitSlash_noslash _ hT, splitSlash_noslash _ hns]
+    simp only [List.foldl_append, List.foldl_cons, List.foldl_nil]
+    rw [rstep_normal _ tcDirName (by decide) (by decide) (by decide), rstep_normal _ id t3 c2 c3]
+    simp
+  · cases h
+
+/-- identifiers that are not digests get no directory at all -/
+theorem overlayDir_refuses_bad_ids (builder : Bytes) (c : Bool) :
+    overlayDir builder [46, 46, 47, 46, 46, 47, 120] c = none ∧ overlayDir builder [47, 116, 109, 112, 47, 120] c = none ∧
+    overlayDir builder [] c = none := by
+  refine ⟨?_, ?_, ?_⟩ <;> simp [overlayDir, validId, isHexByte]
+
+/-- F-C19-c (fixed aa1c43e), kernel-checked: before the fix the ids `../../x` and `/tmp/x` named directories outside `/b/d` -/
+theorem overlayDirBefore_escape_witness :
+    confined [47, 98, 47, 100] (overlayDirBefore [47, 98, 47, 100] [46, 46, 47, 46, 46, 47, 120]) = false ∧
+    confined [47, 98, 47, 100] (overlayDirBefore [47, 98, 47, 100] [47, 116, 109, 112, 47, 120]) = false := by decide
+
 /-- the stripped remainder of a rooted suffix never has a root again -/
 theorem trimLeftFuel_noRoot (fuel : Nat) (s : Bytes) (h : s.length < fuel) : hasRoot (trimLeftFuel fuel s) = false := by
   induction fuel generalizing s with
